@@ -13,6 +13,8 @@ func init() {
 			ruleSizeCap(c, "C04.")  // the block handed out must not extend beyond the one bit reserved for it
 			ruleConvPair(c, "C04.") // disjointness: two blocks never share an index (the IPv4 sibling of this rule is LINMAP)
 			ruleGeomAlias(c, "C04.")
+			c.R.Floor("C04.CONV-PAIR", 3)
+			c.R.Floor("C04.ALLOC.GEOM-ALIAS", 3)
 			c.R.Floor("C04.ALLOC.LOCK", 14)
 			c.R.Floor("C04.ALLOC.TESTSET", 3)
 			c.R.Floor("C04.ALLOC.ROLLBACK", 1)
@@ -30,6 +32,7 @@ func init() {
 			ruleArith(c, "C06.") // the index of the block: limb arithmetic of Offset must at least be well-formed
 			ruleLinMap(c, "C06.")
 			ruleGeomAlias(c, "C06.")
+			c.R.Floor("C06.ALLOC.GEOM-ALIAS", 3)
 			c.R.Floor("C06.FREE.TESTCLEAR", 2)
 			c.R.Floor("C06.FREE.CONTAIN", 4)
 			c.R.Floor("C06.FREE.ERR-NOEFFECT", 2)
@@ -46,6 +49,7 @@ func init() {
 			ruleHintCallers(c, "C07.HINT.CALLERS")
 			ruleArith(c, "C07.") // the hinted index converts back to the hinted block only if AddPrefixes neither wraps nor reports a spurious overflow
 			ruleGeomAlias(c, "C07.")
+			c.R.Floor("C07.ALLOC.GEOM-ALIAS", 3)
 			c.R.Floor("C07.HINT.FIRST", 4)
 			c.R.Floor("C07.HINT.CALLERS", 2)
 		},
@@ -85,6 +89,8 @@ func init() {
 			}
 			runSafety(c, "C16.", lockers, nil, "LOCKPAIR")
 			ruleLockOrder(c, "C16.")
+			c.R.Floor("C16.PUBLISH-FRESH", 1)
+			c.R.Floor("C16.POOL.NO-RETAIN", 2)
 			c.R.Floor("C16.GUARDED-BY", 25)
 			c.R.Floor("C16.ATOMIC-RMW", 3)
 			c.R.Floor("C16.GLOBAL-RO", 20)
@@ -110,6 +116,9 @@ func init() {
 			ruleLinMap(c, "C02.")                                                // "in range": the IPv4 allocator's index↔address maps and bitmap size are exact
 			ruleAlloc(c, "C02.", map[string]bool{"TESTSET": true, "FULL": true}) // "never bound to two clients": the allocator hands out only clear bits and fails exactly when none is left
 			ruleDBSchema(c, "C02.")                                              // "restarts in between": what was saved for a client is what is restored for it
+			c.R.Floor("C02.ALLOC.TESTSET", 3)
+			c.R.Floor("C02.FULL-IFF-FAIL", 4)
+			c.R.Floor("C02.DB.SCHEMA-AGREE", 5)
 			c.R.Floor("C02.RANGE.LOOKUP-FIRST", 1)
 			c.R.Floor("C02.RANGE.INSERT", 1)
 			c.R.Floor("C02.RANGE.EXHAUST", 1)
@@ -130,6 +139,8 @@ func init() {
 			ruleDBLoad(c, "C03.")
 			ruleRangeRestart(c, "C03.RANGE.RESTART")                             // "none lost": every loaded binding is kept and re-marked, or start-up aborts
 			ruleAlloc(c, "C03.", map[string]bool{"TESTSET": true, "FULL": true}) // an address handed out twice puts one ip in two rows: such a database is refused at restart
+			c.R.Floor("C03.ALLOC.TESTSET", 3)
+			c.R.Floor("C03.FULL-IFF-FAIL", 4)
 			c.R.Floor("C03.DB.SCHEMA-AGREE", 5)
 			c.R.Floor("C03.DB.CODEC", 4)
 			c.R.Floor("C03.DB.PERSIST-BEFORE-REPLY", 1)
@@ -153,6 +164,8 @@ func init() {
 			ruleGeomAlias(c, "C08.") // what a client was told it holds stays what is recorded: no answer shares storage with a later one
 			ruleConvPair(c, "C08.")  // disjoint blocks: index and prefix conversions are the library's inverse pair
 			for _, r := range []string{"PD.PROVENANCE", "PD.OWN-KEY", "PD.ONE-PER-IAPD", "PD.NOPREFIX", "PD.LIFETIME", "PD.FRESH", "PD.LOCK"} {
+				c.R.Floor("C08.CONV-PAIR", 3)
+				c.R.Floor("C08.ALLOC.GEOM-ALIAS", 3)
 				c.R.Floor("C08."+r, 1)
 			}
 		},
@@ -172,6 +185,8 @@ func init() {
 			}
 			ruleSamePrefix(c, "C09.KEEP.EXACT", sp)
 			for _, r := range []string{"KEEP.RECORD-ALL", "KEEP.REUSE-FIRST", "KEEP.MARK", "KEEP.EXACT"} {
+				c.R.Floor("C09.KEEP.WRITERS", 1)
+				c.R.Floor("C09.PD.OWN-KEY", 1)
 				c.R.Floor("C09."+r, 1)
 			}
 		},
@@ -187,6 +202,7 @@ func init() {
 		Run: func(c *Ctx) {
 			ruleFilePlugin(c, "C10.")
 			ruleGuardedBy(c, "C10.", "file.")
+			c.R.Floor("C10.FILE.NAME", 3)
 			c.R.Floor("C10.FILE.PER-PROTOCOL", 1)
 			c.R.Floor("C10.FILE.SWAP", 1)
 			c.R.Floor("C10.FILE.ALL-OR-NOTHING", 2)
@@ -209,6 +225,7 @@ func init() {
 			ruleAlloc(c, "C05.", map[string]bool{"FULL": true, "SAMEINDEX": true, "TESTSET": true, "LOCK": true}) // "exactly N": no block is handed out twice, none is lost
 			ruleArith(c, "C05.")                                                                                  // every index of the pool must convert to an address (no spurious overflow)
 			ruleGeomAlias(c, "C05.")
+			c.R.Floor("C05.ALLOC.GEOM-ALIAS", 3)
 			c.R.Floor("C05.LINMAP", 3)
 			c.R.Floor("C05.SIZE", 1)
 			c.R.Floor("C05.CAP", 1)
